@@ -273,6 +273,8 @@ def main(argv=None):
       print('  [%dx]' % seen[tag], end='')
       print('  violation case=%d clause=%s mech=%s: %s' % (
           r['idx'], v.get('clause'), v.get('mech'), str(v.get('detail', ''))[:300]))
+    if reasons:
+      print('  (also inconclusive for: %s)' % '; '.join(reasons)[:600])
     print('VIOLATION property=%s replay=%s' % (prop, replay_paths[0]))
     print('violated: %s unlisted_violations=%d' % (summary, len(viols)))
     return 1
